@@ -35,6 +35,15 @@ Theorem C13_other_files_untouched : forall Doc Spec Base load_eval parse_base em
 Proof. exact other_files_untouched. Qed.
 Print Assumptions C13_other_files_untouched.
 
+Theorem C13_option_target_wins : forall Doc Spec Base load_eval parse_base emit to_yaml writable args file t fs e fs',
+  c_target args = Some t ->
+  Cli.run Doc Spec Base load_eval parse_base emit to_yaml writable (Cli.resolve args file) fs = (e, fs') ->
+  (forall q, q <> t -> fs' q = fs q) /\
+  (e = Success -> exists m spec ob y, Cli.orp (c_main args) (c_main file) = Some m /\ load_eval fs m = Some spec /\
+                  to_yaml (emit spec ob) = Some y /\ fs' t = Some y).
+Proof. exact option_target_wins. Qed.
+Print Assumptions C13_option_target_wins.
+
 Theorem C13_cli_wasm_agree : forall Doc Spec Base load_eval parse_base emit to_yaml writable
   (load_eval1 : bytes -> option Spec) m t src fs,
   fs m = Some src -> load_eval fs m = load_eval1 src -> writable fs t = true ->
